@@ -7,7 +7,7 @@ package zkfac
 //@ func (*Proof).Verify
 //@   use bits
 //@   nopanic[C05]
-//@   modifies hstate(hash)
+//@   modifies hstate(hash), wlog(hash.h)
 //@   requires public.N != nil && pedok(public.Aux) && hash != nil && hash.h != nil
 
 //@ func challenge
